@@ -1030,9 +1030,11 @@ class DecodeChunkedTask(Task):
             I.ob(f"{P}/chunked:complete-exactly-at-the-last-data-set-fragment", I.as_bool(val) is last, detail=repr(val))
             return
         names = [e.name for e in I.trace if e.name in ("NamedTemporaryFile", "file.write", "write_file_meta_info")]
+        # in however many writes: what precedes the File Meta is exactly the 128 zero bytes and 'DICM'
+        head = b"".join(w for w in fw if isinstance(w, (bytes, bytearray))) if all(isinstance(w, (bytes, bytearray)) for w in fw) else None
         I.ob(f"{P}/chunked:the-file-starts-with-the-128-byte-preamble-and-DICM-followed-by-the-File-Meta",
-             names == ["NamedTemporaryFile", "file.write", "file.write", "write_file_meta_info"] and len(fw) == 2
-             and fw[0] == b"\x00" * 128 and fw[1] == b"DICM", detail=f"{names} {fw!r}")
+             names[:1] == ["NamedTemporaryFile"] and names[-1:] == ["write_file_meta_info"] and names.count("write_file_meta_info") == 1
+             and names.count("NamedTemporaryFile") == 1 and head == b"\x00" * 128 + b"DICM", detail=f"{names} {fw!r}")
         metas = [e for e in I.trace if e.name == "write_file_meta_info"]
         if len(metas) != 1 or not isinstance(metas[0].args[1], Env) or "args" not in metas[0].args[1].data:
             I.ob(f"{P}/chunked:the-File-Meta-is-built-by-create_file_meta", False, detail=repr(metas))
